@@ -174,10 +174,13 @@ func genC02(c *Ctx) {
 				l := [][]byte{append([]byte("@"), r.Name...), r.Sequence, []byte("+"), r.Quals}
 				if j == k {
 					switch kind {
-					case 0: // missing '@'
+					case 0: // missing '@', or something in front of it (a byte-order mark, blanks, another format's marker)
 						l[0] = r.Name
 						if len(l[0]) > 0 && l[0][0] == '@' {
 							l[0] = append([]byte("x"), l[0]...)
+						}
+						if junk := fastqJunk[c.rng.Intn(2*len(fastqJunk))%len(fastqJunk)]; c.rng.Intn(3) > 0 {
+							l[0] = append(append([]byte(junk), '@'), r.Name...)
 						}
 					case 1: // '+' line replaced (by something else, or by an empty line)
 						l[2] = [][]byte{[]byte("-"), nil, []byte(" +"), []byte("x+")}[c.rng.Intn(4)]
@@ -241,9 +244,10 @@ func genC02(c *Ctx) {
 		c.add(Case{Op: "fq.dec e " + hx(txt), Impl: itemsStr(items, st), Kind: "corrupt-plus-dropped", Nontrivial: true, Oracle: oracle,
 			Note: fmt.Sprintf("text %q", trunc(string(txt), 200))})
 	}
-	sizes := []int{65535, 65536, 70000}
+	// "for every read length": well past any line-buffer ceiling somebody might think generous (17 MiB; thorough 70 MiB)
+	sizes := []int{65535, 65536, 70000, 17<<20 + 1}
 	if c.thor {
-		sizes = append(sizes, 3<<20)
+		sizes = append(sizes, 3<<20, 70<<20)
 	}
 	for _, n := range sizes {
 		r := &fastq.Fastq{Name: []byte("big"), Sequence: bytes.Repeat([]byte("A"), n), Quals: bytes.Repeat([]byte("I"), n)}
@@ -256,6 +260,9 @@ func genC02(c *Ctx) {
 		c.add(Case{Kind: "big", Nontrivial: true, Oracle: oracle, Note: fmt.Sprintf("fastq.Reader on two records with %d-base reads", n)})
 	}
 }
+
+// what may stand in front of the '@' of a malformed fastq header line
+var fastqJunk = []string{"\xef\xbb\xbf", "\xfe\xff", "\xff\xfe", " ", "\t", "\x00", "\r", "\v", "\f", "\xc2\xa0", ">", "+", "#", ";", "  ", "\xef\xbb\xbf\xef\xbb\xbf"}
 
 // ---------------- C03 ----------------
 
